@@ -45,7 +45,8 @@ type State struct {
 }
 
 type epochInfo struct {
-	kind   string // "", "alloc", "merge"
+	keep   map[string]bool // kind keepfresh: heap components whose objects allocated by this invocation are preserved
+	kind   string // "", "alloc", "merge", "keepfresh"
 	parent *State
 	bound  string // alloc watermark before the call (kind alloc)
 	conds  []string
@@ -70,6 +71,8 @@ func (s *State) havocked() bool {
 		return true
 	}
 	switch s.ep.kind {
+	case "keepfresh":
+		return true
 	case "alloc":
 		return s.ep.parent.havocked()
 	case "merge":
@@ -215,6 +218,11 @@ func (vc *VC) stGet(st *State, name string) string {
 	vc.declare(n, srt)
 	if st.ep != nil {
 		switch st.ep.kind {
+		case "keepfresh":
+			if st.ep.keep[name] && strings.HasPrefix(srt, "(Array Int ") {
+				old := vc.stGet(st.ep.parent, name)
+				vc.axiom(fmt.Sprintf("(forall ((r Int)) (! (=> (>= (rootref r) $alloc@0) (= (select %s r) (select %s r))) :pattern ((select %s r))))", n, old, n))
+			}
 		case "alloc":
 			old := vc.stGet(st.ep.parent, name)
 			if strings.HasPrefix(srt, "(Array Int ") && !strings.HasPrefix(name, "$") {
@@ -289,6 +297,18 @@ func (vc *VC) havocAll(st *State) {
 	na := vc.fresh("$alloc", "Int")
 	st.m["$alloc"] = na
 	vc.axiom(fmt.Sprintf("(>= %s %s)", na, alloc))
+}
+
+// havocAllKeeping: havoc of the whole heap by unknown code, except that arrays of the given element heaps which this
+// invocation allocated itself and never handed to anybody keep their content (nobody else can reach them).
+func (vc *VC) havocAllKeeping(st *State, keep map[string]bool) {
+	if len(keep) == 0 {
+		vc.havocAll(st)
+		return
+	}
+	parent := st.clone()
+	vc.havocAll(st)
+	st.ep = &epochInfo{kind: "keepfresh", parent: parent, keep: keep}
 }
 
 func (vc *VC) stGet0(st *State, name string) string {
@@ -572,6 +592,7 @@ type Frame struct {
 	args     [][]string
 	privAlloc map[*ssa.Alloc]bool
 	initGlobals []*ssa.Global
+	privHeaps map[string]bool // slice-element heaps whose arrays allocated here never escape (type-based)
 }
 
 type loopInfo struct {
@@ -889,6 +910,9 @@ func (fr *Frame) run(pc string, st *State) (string, *State, [][]string) {
 			}
 		}
 	}
+	if fr.top {
+		fr.privHeaps = fr.privateSliceHeaps()
+	}
 	order := topoOrder(fn)
 	for _, b := range order {
 		fr.execBlock(b, pc, st)
@@ -1165,7 +1189,7 @@ func (fr *Frame) enterLoop(li *loopInfo, pc string, st *State) (string, *State) 
 	st = st.clone()
 	names, all := fr.loopWrites(li)
 	if all {
-		vc.havocAll(st)
+		vc.havocAllKeeping(st, fr.topFrame().privHeaps)
 	} else {
 		if names["$store"] {
 			// havoc every heap component written in the loop: determined lazily is unsound, so havoc all known heaps
@@ -1511,4 +1535,102 @@ func offZero(v ssa.Value, seen map[ssa.Value]bool) bool {
 		return x.Value == nil
 	}
 	return false
+}
+
+// privateSliceHeaps: element types T such that no value of type []T / *[n]T is passed to a call (other than the builtins
+// len, cap, append, copy), stored into the heap, captured by a closure, sent on a channel or converted to an interface
+// in this function. Arrays of such T allocated by this invocation are unreachable for anybody else.
+func (fr *Frame) privateSliceHeaps() map[string]bool {
+	vc := fr.vc
+	cands := map[string]types.Type{}
+	elemOf := func(t types.Type) types.Type {
+		switch u := t.Underlying().(type) {
+		case *types.Slice:
+			return u.Elem()
+		case *types.Pointer:
+			if a, ok := u.Elem().Underlying().(*types.Array); ok {
+				return a.Elem()
+			}
+		}
+		return nil
+	}
+	for _, b := range fr.fn.Blocks {
+		for _, ins := range b.Instrs {
+			switch x := ins.(type) {
+			case *ssa.MakeSlice:
+				if e := elemOf(x.Type()); e != nil {
+					cands[vc.d.sliceHeap(e)] = e
+				}
+			case *ssa.Call:
+				if bi, ok := x.Call.Value.(*ssa.Builtin); ok && bi.Name() == "append" {
+					if e := elemOf(x.Type()); e != nil {
+						cands[vc.d.sliceHeap(e)] = e
+					}
+				}
+			}
+		}
+	}
+	escapes := map[string]bool{}
+	mark := func(v ssa.Value) {
+		if v == nil {
+			return
+		}
+		if e := elemOf(v.Type()); e != nil {
+			escapes[vc.d.sliceHeap(e)] = true
+		}
+	}
+	for _, b := range fr.fn.Blocks {
+		for _, ins := range b.Instrs {
+			switch x := ins.(type) {
+			case ssa.CallInstruction:
+				c := x.Common()
+				if bi, ok := c.Value.(*ssa.Builtin); ok {
+					switch bi.Name() {
+					case "len", "cap", "append", "copy":
+						continue
+					}
+				}
+				for _, a := range c.Args {
+					mark(a)
+				}
+				if c.IsInvoke() {
+					mark(c.Value)
+				}
+			case *ssa.Store:
+				if _, priv := fr.locsPrivate(x.Addr); !priv {
+					mark(x.Val)
+				}
+			case *ssa.MapUpdate:
+				mark(x.Value)
+				mark(x.Key)
+			case *ssa.MakeClosure:
+				for _, bnd := range x.Bindings {
+					mark(bnd)
+					if pt, ok := bnd.Type().Underlying().(*types.Pointer); ok {
+						if e := elemOf(pt.Elem()); e != nil {
+							escapes[vc.d.sliceHeap(e)] = true
+						}
+					}
+				}
+			case *ssa.Send:
+				mark(x.X)
+			case *ssa.MakeInterface:
+				mark(x.X)
+			case *ssa.Return:
+				// returning hands the object to the caller only after this invocation ended: fine
+			}
+		}
+	}
+	out := map[string]bool{}
+	for h := range cands {
+		if !escapes[h] {
+			out[h] = true
+		}
+	}
+	return out
+}
+
+func (fr *Frame) locsPrivate(addr ssa.Value) (*ssa.Alloc, bool) {
+	a := fr.rootPriv(addr)
+	return a, a != nil
 }
